@@ -206,6 +206,11 @@ def run(ctx):
             hists = [gen_history(rng, exprs, cons, rng.choice([12, 24, 40])) if rng.random() < 0.5 else
                      ("family", gen_family_history(rng, exprs, cons, rng.choice([12, 24, 40]))) for _ in range(T)]
             classes_ = [rng.choice([claripy.Solver, claripy.Solver, claripy.SolverComposite, claripy.SolverCacheless]) for _ in range(T)]
+            # workers analysing the same thing: some threads run the very same history (on their own solver objects) at the same time
+            for i in range(1, T):
+                if rng.random() < 0.35:
+                    j = rng.randrange(i)
+                    hists[i], classes_[i] = hists[j], classes_[j]
             results = [None] * T
             errors = [None] * T
             barrier = threading.Barrier(T)
